@@ -625,12 +625,19 @@ func cmdDrive(args []string) int {
 					for k := 0; k < 12 && len(d.cur[r-1].E) > 0; k++ {
 						o := model.Op{Op: "Delete", R: r, V: model.Val{K: "none"}}
 						n := len(d.cur[r-1].E)
-						cnt := n / 3
+						// from a third of the list up to all but a few elements in ONE call
+						cnt := n/3 + rng.Intn(n-n/3+1)
+						if rng.Intn(3) == 0 {
+							cnt = n - 1 - rng.Intn(4)
+						}
 						if cnt < 1 {
 							cnt = 1
 						}
-						if cnt > 60 {
-							cnt = 60
+						if cnt > n {
+							cnt = n
+						}
+						if cnt > 200 {
+							cnt = 200
 						}
 						seen := map[int]bool{}
 						for len(o.Ks) < cnt {
